@@ -187,6 +187,7 @@ def gen(rng, tier, i):
         chaos["capacity"] = 1 << 20
     sc.net["chaos"] = chaos
     sc.net["spawn_yield"] = rng.choice([0, 300, 700])
+    sc.net["lock_yield"] = rng.choice([0, 0, 300])   # seeded scheduling points at the asynchronous locks
     part = rng.choice(["a", "a", "a", "b", "c"])
     sc.meta = {"keep_ops": True}
     {"a": gen_a, "b": gen_b, "c": gen_c}[part](rng, sc, tier)
